@@ -89,6 +89,7 @@ Local Notation stop_movables := (RE.stop_movables P D dev).
 Local Notation call_pausables := (RE.call_pausables P D dev).
 Local Notation record_interruptions := (RE.record_interruptions P D).
 Local Notation request_pause := (RE.request_pause P D).
+Local Notation request_pause_in_task := (RE.request_pause_in_task P D).
 Local Notation exec_cmd := (RE.exec_cmd P D dev).
 Local Notation exec_start_suspender := (RE.exec_start_suspender P plan_of D dev).
 Local Notation finalize := (RE.finalize P presume D dev).
@@ -288,6 +289,32 @@ Proof.
    | repeat split; try congruence; right; repeat split; congruence ]).
 Qed.
 
+(* the 'pause' message, processed inside the task: without a checkpoint in effect the task is not cancelled (repair C10-a) *)
+Definition pause_acc_nc (s s' : st) (e : option exn) : Prop :=
+  state s = Running /\ state s' = Pausing /\ pc s' = pc s /\ permit s' = permit s /\ blocking s' = blocking s /\
+  plans s' = plans s /\ resps s' = resps s /\ stashed s' = stashed s /\ cache s' = cache s /\
+  interrupted s' = true /\ icause s' = Some CzPause /\
+  late_pause s' = (match pc s with PcFinalSleep _ => true | _ => late_pause s end) /\
+  must_cancel s' = must_cancel s /\
+  ((e = None /\ intr_err s' = intr_err s) \/ (e = Some EOther /\ intr_err s' = true)).
+
+Definition pause_acc_t (s s' : st) (e : option exn) : Prop :=
+  (resumable s = true /\ pause_acc s s' e) \/ (resumable s = false /\ pause_acc_nc s s' e).
+
+Lemma request_pause_in_task_spec s d s' e o :
+  request_pause_in_task s d = (s', e, o) -> samecb s s' \/ pause_acc_t s s' e.
+Proof.
+  unfold RE.request_pause_in_task. destruct (request_pause s d) as [[s1 e1] o1] eqn:Erp.
+  apply request_pause_spec in Erp. unfold pause_acc_t.
+  destruct (resumable s) eqn:Er; intros H; inversion H; subst; clear H.
+  - destruct Erp as [Erp|Erp]; [left; exact Erp | right; left; split; [reflexivity | exact Erp]].
+  - destruct Erp as [Erp|Erp].
+    + left. unfold samecb, samec, same in *; simp_st; split_ands; repeat split; congruence.
+    + right; right. split; [reflexivity|]. unfold pause_acc, pause_acc_nc in *. simp_st. split_ands.
+      repeat split; try assumption; try reflexivity.
+      match goal with Hx : _ \/ _ |- _ => destruct Hx as [(A & B & _)|(A & B & _)]; [left | right]; split; assumption end.
+Qed.
+
 (* ------------------------------------------------------------------ exec_cmd *)
 Lemma exec_cmd_same s m s' c o :
   (forall d, mcmd m <> CPause d) -> exec_cmd s m = (s', c, o) -> same s s'.
@@ -303,10 +330,10 @@ Qed.
 
 Lemma exec_cmd_pause s m d s' c o :
   mcmd m = CPause d -> exec_cmd s m = (s', c, o) ->
-  exists e o', request_pause s d = (s', e, o') /\ exists r, c = Done r.
+  exists e o', request_pause_in_task s d = (s', e, o') /\ exists r, c = Done r.
 Proof.
   intros Hc. unfold RE.exec_cmd. rewrite Hc.
-  destruct (request_pause s d) as [[s1 e] o1] eqn:E. intros H; inversion H; subst.
+  destruct (request_pause_in_task s d) as [[s1 e] o1] eqn:E. intros H; inversion H; subst.
   exists e, o. split; [reflexivity | eexists; reflexivity].
 Qed.
 
@@ -603,7 +630,9 @@ Definition pr_c (c : ctl) (s : st) : Prop :=
         match c with
         | CTop | CContinue _ _ =>
             state s = Pausing /\
-            ((must_cancel s = true /\ stashed s = None) \/ (must_cancel s = false /\ permit s = false))
+            ((must_cancel s = true /\ stashed s = None) \/ (must_cancel s = false /\ permit s = false) \/
+             (* an in-task pause without a checkpoint (repair C10-a): the next turn of the loop throws FailedPause *)
+             resumable s = false)
         | CBody => state s = Pausing /\ must_cancel s = true /\ stashed s = None
         | CCancelled _ => state s = Pausing
         | CExit (XExn x) => ctl_exn x = false
@@ -770,18 +799,18 @@ Proof.
               end) as [[s3 cr] o3] eqn:Ex.
     clearbody s2.
     assert (Hc : (same s2 s3 \/ exists f, same (RE.push_frame P D s2 f) s3) \/
-                 (exists e, pause_acc s2 s3 e) /\ exists r, cr = Done r).
+                 (exists e, pause_acc_t s2 s3 e) /\ exists r, cr = Done r).
     { destruct (mcmd m) eqn:Em;
         try (left; left; eapply exec_cmd_same; [|exact Ex]; intros d' Hd'; rewrite Em in Hd'; discriminate Hd').
       - destruct (exec_cmd_pause _ _ _ _ _ _ Em Ex) as (e & o' & Hrp & Hr).
-        destruct (request_pause_spec _ _ _ _ _ Hrp) as [Hs|Hs].
+        destruct (request_pause_in_task_spec _ _ _ _ _ Hrp) as [Hs|Hs].
         + left; left. destruct Hs as [[Hs _] _]. exact Hs.
         + right. split; [exists e; exact Hs | exact Hr].
       - left. eapply exec_start_suspender_spec. exact Ex. }
     clear Ex.
     destruct Hc as [[Hc|[f Hc]]|[[e Hc] [r Hr]]].
     1,2: destruct cr; dleaf.
-    subst cr. unfold pause_acc in Hc. dleaf.
+    subst cr. destruct Hc as [[Hr Hc]|[Hr Hc]]; [unfold pause_acc in Hc | unfold pause_acc_nc in Hc]; dleaf.
     destruct (pc s); simp_fn; try discriminate; fin0. }
   { (* CContinue *) destruct popped; dleaf. }
   { (* CCancelled *)
